@@ -32,6 +32,13 @@ Theorem C04_wrap_identity : forall bs n rho q v ps k,
 Proof. exact wrap_id. Qed.
 Print Assumptions C04_wrap_identity.
 
+(* R5 on an `if` without else (and on the last elif of a chain without else): the implicit branch is `.` *)
+Theorem C04_if_explicit_else : forall bs n rho c a v ps k,
+  eval_t bs (3 + n) rho (Term (TIf c a [] (Some q_identity)) []) v ps k =
+  eval_t bs (3 + n) rho (Term (TIf c a [] None) []) v ps k.
+Proof. exact if_explicit_else. Qed.
+Print Assumptions C04_if_explicit_else.
+
 (* R9: a key argument q of an index / slice / getpath is rewritten to (q, empty), which forks and therefore
    defeats the elision of the path markers around one-instruction arguments *)
 Theorem C04_comma_empty : forall bs n rho q v ps k, not_redefined bs rho "empty" 0 ->
